@@ -128,6 +128,19 @@ pub fn run_case(case : &Case, seed : u64, fixed_requests : Option<&Vec<(String, 
             //  processes; they stay in the never-serve check below)
             for (_, c) in secrets.iter().filter(|(p, _)| !p.starts_with(&format!("{}/", RULER_DIR))).take(12) { valid.push(("GET".to_string(), format!("/files/{}", cache_name_of(c)), "hash-of-uncached-file".to_string())); }
             for _ in 0..4 { valid.push(("GET".to_string(), format!("/files/{}", random_name(&mut rng)), "absent-name".to_string())); }
+            // 43 valid characters whose value is a present hash + 2^256: too large, must be rejected
+            for name in cache.keys()
+            {
+                if let Some(alias) = super::super::util::alias_beyond_256_bits(name)
+                {
+                    valid.push(("GET".to_string(), format!("/files/{}", alias), "present-hash-plus-2^256".to_string()));
+                }
+            }
+            for (r, s) in rule_pairs.keys()
+            {
+                if let Some(alias) = super::super::util::alias_beyond_256_bits(r) { valid.push(("GET".to_string(), format!("/rules/{}/{}", alias, s), "present-rule-plus-2^256".to_string())); }
+                if let Some(alias) = super::super::util::alias_beyond_256_bits(s) { valid.push(("GET".to_string(), format!("/rules/{}/{}", r, alias), "present-sources-plus-2^256".to_string())); }
+            }
             for (r, _) in rule_pairs.keys().take(4) { valid.push(("GET".to_string(), format!("/rules/{}/{}", r, random_name(&mut rng)), "absent-sources".to_string())); }
             for _ in 0..2 { valid.push(("GET".to_string(), format!("/rules/{}/{}", random_name(&mut rng), random_name(&mut rng)), "absent-rule".to_string())); }
             rng.shuffle(&mut valid);
